@@ -63,6 +63,9 @@ func (fr *Frame) readLeaf(st *State, l *Loc, suffix, sort string) Term {
 	case l.isGlobal():
 		return fr.ctx.get(st, comp, sort)
 	case l.isElem():
+		if l.Off != "" && l.Off != "0" {
+			return sel(fr.v.shift(fr.ctx, sel(fr.ctx.get(st, comp, arr2Sort(sort)), l.Ref), l.Off, sort), l.Idx)
+		}
 		return sel(sel(fr.ctx.get(st, comp, arr2Sort(sort)), l.Ref), l.Idx)
 	default:
 		return sel(fr.ctx.get(st, comp, arrSort(sort)), l.Ref)
@@ -78,7 +81,7 @@ func (fr *Frame) writeLeaf(st *State, l *Loc, suffix, sort string, val Term) *St
 	case l.isElem():
 		fr.touch(comp, arr2Sort(sort))
 		a := fr.ctx.get(st, comp, arr2Sort(sort))
-		na := fr.nameTerm(store(a, l.Ref, store(sel(a, l.Ref), l.Idx, val)), comp, arr2Sort(sort))
+		na := fr.nameTerm(store(a, l.Ref, store(sel(a, l.Ref), add(orZero(l.Off), l.Idx), val)), comp, arr2Sort(sort))
 		return st.with(comp, na)
 	default:
 		fr.touch(comp, arrSort(sort))
@@ -177,7 +180,7 @@ func (fr *Frame) subLoc(l *Loc, t types.Type, i int) *Loc {
 	stt := t.Underlying().(*types.Struct)
 	f := stt.Field(i)
 	if strings.HasPrefix(l.Comp, "E:") || strings.HasPrefix(l.Comp, "G:") || strings.HasPrefix(l.Comp, "C:") {
-		return &Loc{Comp: l.Comp + "." + f.Name(), Ref: l.Ref, Idx: l.Idx, T: f.Type()}
+		return &Loc{Comp: l.Comp + "." + f.Name(), Ref: l.Ref, Idx: l.Idx, Off: l.Off, T: f.Type()}
 	}
 	encFail("subLoc on object location %s", l.Comp)
 	return nil
@@ -655,7 +658,7 @@ func (fr *Frame) elemLoc(base Val, idx Term) (*Loc, types.Type) {
 	switch base.K {
 	case KSlice:
 		et := base.T.Underlying().(*types.Slice).Elem()
-		return &Loc{Comp: "E:" + typeName(et), Ref: base.A, Idx: add(base.Off, idx), T: et}, et
+		return &Loc{Comp: "E:" + typeName(et), Ref: base.A, Idx: idx, Off: base.Off, T: et}, et
 	case KArr:
 		var at *types.Array
 		if p, ok := base.T.Underlying().(*types.Pointer); ok {
@@ -1126,4 +1129,15 @@ func (fr *Frame) makeSlice(i *ssa.MakeSlice, st *State, reach Term) *State {
 	st = fr.zeroElems(st, ref, et)
 	fr.vals[i] = Val{K: KSlice, T: i.Type(), A: ref, Off: "0", Len: ln, Cap: cp}
 	return st
+}
+
+// shift(A, o)[k] == A[o+k]: view of a backing array from a slice's offset (keeps quantifier patterns free of arithmetic).
+func (v *Verifier) shift(c *Ctx, a Term, off Term, sort string) Term {
+	name := "shift_" + sort
+	f := c.declareFun(name, []string{arrSort(sort), "Int"}, arrSort(sort))
+	if !v.facts["shiftax:"+sort] {
+		v.facts["shiftax:"+sort] = true
+		c.assert(fmt.Sprintf("(forall ((a! %s) (o! Int) (k! Int)) (! (= (select (%s a! o!) k!) (select a! (+ o! k!))) :pattern ((select (%s a! o!) k!))))", arrSort(sort), f, f), "slice view")
+	}
+	return app(f, a, off)
 }
